@@ -17,6 +17,11 @@ def replay(prop, path):
             return replay_mesh(r)
         if "ops" in r and "domain" in r and prop == "C16":
             return replay_quad(r)
+        if prop == "C13" and "graded_job" in r:
+            from .checks import c13_check
+            o = c13_check._graded_job(tuple(r["graded_job"]))
+            print("graded mesh %r -> %r" % (r["graded_job"], o))
+            return 1 if o.get("lam", 1.0) <= 0.01 else 0
         if "record" in r and isinstance(r["record"], dict) and "te" in r["record"] and "curve" in r:
             return replay_pair(r)
     except Exception as ex:  # a failing replay is itself informative
